@@ -182,7 +182,17 @@ extern "C" void h_entry()
     }
     const usize extra = verif_nondet_u8() & 63;
     const usize budget = LT::NVARY ? bytes + extra : 0;
-#if RESERVED
+#if RESERVED == 2  // default-constructed (all fixed sizes are 0), then reserve()d: the stride comes from the default constructor of the locator
+    for (usize j = 0; j < N; ++j)
+    {
+        if (LT::kind[j] == K_FIXED)
+        {
+            verif_assume(fixed[j] == 0);
+        }
+    }
+    Vec v;
+    v.reserve(NELEM, budget);
+#elif RESERVED
     usize cap0 = verif_nondet_size(), b0 = verif_nondet_size();
     verif_assume(cap0 < NELEM && b0 <= budget);
     cap0 = verif_fork(cap0);
